@@ -1,10 +1,19 @@
 (* C16 -- executable model of the key-usage policy of PGPy as it is in /repo NOW:
-   pgpy/decorators.py KeyAction (__call__, usage, check_attributes), pgpy/pgp.py PGPKey._get_key_flags (with the F7 repair:
-   a subkey's flags come from the NEWEST binding signature), PGPUID.selfsig (with repair 812bc0f: the newest self-CERTIFICATION, types
-   0x10-0x13; a certification revocation or attestation by the key is skipped), PGPSignature.key_flags (with repair df70557: the KeyFlags
-   subpacket of the HASHED area, the empty set when there is none - an unhashed one grants nothing), PGPKey.is_public / is_protected / is_unlocked, the decorator
-   arguments of sign / certify / revoke / revoker / bind / encrypt / decrypt, and the routing at the top of PGPKey.decrypt.
+   pgpy/decorators.py KeyAction (__call__, usage, check_attributes), pgpy/pgp.py PGPKey._get_key_flags, PGPKey.is_public / is_protected /
+   is_unlocked, PGPKey.get_uid, PGPUID.selfsig, PGPSignature.key_flags, the decorator arguments of sign / certify / revoke / revoker /
+   bind / encrypt / decrypt, and the routing at the top of PGPKey.decrypt.
    No proofs in this file (Proofs/Policy_lemmas.v), statements in Props/C16.v.
+
+   Repairs the model follows (each earlier rule is kept as a field value of `rules` for the refutations):
+     480b116 (F7)  a subkey's flags come from the NEWEST binding signature in effect                      r_pick
+     812bc0f       PGPUID.selfsig = the newest self-CERTIFICATION (0x10-0x13 issued by the key)             r_upick
+     df70557       PGPSignature.key_flags = the KeyFlags subpacket of the HASHED area, else the empty set  (s_flags)
+     a0cb78f       a subkey without binding signature in effect has the empty flag set (was: StopIteration  r_nobind
+                   in a generator -> RuntimeError); an unknown user= is refused with PGPError before the
+                   scan (was: None.selfsig -> AttributeError)                                               r_usercheck
+     1d6dbd1       default identity = the first user id, or the first user attribute when there is none     r_uafallback
+     cab6d36       check_attributes (is_unlocked / is_public) on the component usage() SELECTED, not on      r_onchosen
+                   the receiver: every component has its own public / protected / unlocked state
 
    KeyFlags are a bit set in Z (Certify 1, Sign 2, EncryptCommunications 4, EncryptStorage 8, Split 16, Authentication 32,
    MultiPerson 128): `self.flags & set(flags)` is non-empty iff Z.land is non-zero. *)
@@ -23,8 +32,9 @@ Definition ENCRYPT : Z := 12.        (* EncryptCommunications | EncryptStorage *
    on a subkey    -- a non-expired Subkey_Binding issued by the parent (PGPKey.self_signatures);
    s_cert: its type is a certification (Generic / Persona / Casual / Positive_Cert) -- looked at on user ids only. *)
 Record sigr := { s_created : Z; s_flags : Z; s_qual : bool; s_cert : bool }.
-(* user id: the strings get_uid compares against (name, comment, e-mail that are not None), its signatures in stored order *)
-Record uidr := { u_ids : list Z; u_sigs : list sigr }.
+(* an entry of PGPKey._uids: u_text = it is a UserID (false: a UserAttribute); u_ids = the strings get_uid compares against
+   (name, comment, e-mail that are not None); its signatures in stored order *)
+Record uidr := { u_text : bool; u_ids : list Z; u_sigs : list sigr }.
 
 (* next(reversed(...)) / `for sig in reversed(self._signatures)`: the LAST qualifying signature in stored order
    (SorteDeque keeps _signatures ordered by creation time, later insertions after equal ones) *)
@@ -36,52 +46,82 @@ Definition oldest (l : list sigr) : option sigr := find s_qual l.
 Definition newest_cert (l : list sigr) : option sigr := find (fun s => s_cert s && s_qual s) (rev l).
 
 Inductive crash :=
-  | CrashUser          (* user= names no user id: get_uid gives None, None.selfsig -> AttributeError *)
-  | CrashNoBinding.    (* subkey without usable binding signature: StopIteration inside the generator -> RuntimeError *)
+  | CrashUser          (* before a0cb78f: user= names no user id: get_uid gives None, None.selfsig -> AttributeError *)
+  | CrashNoBinding     (* before a0cb78f: subkey without usable binding signature: StopIteration inside the generator -> RuntimeError *)
+  | CrashNoUserId.     (* before 1d6dbd1: only user attributes: next(iter(self.userids)) -> StopIteration -> RuntimeError *)
 Inductive fres := FOk (f : Z) | FCrash (c : crash).
 
-(* `user.selfsig.key_flags if user.selfsig else set()`; upick = the selfsig rule *)
+(* the rules of the code; `rules_now` below is /repo as it is, the others differ from it in one field *)
+Record rules := {
+  r_upick : list sigr -> option sigr;       (* PGPUID.selfsig *)
+  r_pick : list sigr -> option sigr;        (* the binding signature _get_key_flags reads on a subkey *)
+  r_nobind : fres;                          (* _get_key_flags of a subkey without binding signature in effect *)
+  r_usercheck : bool;                       (* KeyAction refuses an unknown user= before usage() *)
+  r_uafallback : bool;                      (* `self.userids or self._uids` *)
+  r_onchosen : bool }.                      (* check_attributes(_key) (true) / check_attributes(key) (false) *)
+
+(* `user.selfsig.key_flags if user.selfsig else set()` *)
 Definition selfsig_flags_with (upick : list sigr -> option sigr) (u : uidr) : Z :=
   match upick (u_sigs u) with Some s => s_flags s | None => 0 end.
 Definition selfsig_flags := selfsig_flags_with newest_cert.
 Definition selfsig_flags_old := selfsig_flags_with newest.
+(* PGPKey.get_uid: the first entry of _uids one of whose fields EQUALS the search string *)
 Definition get_uid (uids : list uidr) (s : Z) : option uidr := find (fun u => existsb (Z.eqb s) (u_ids u)) uids.
+(* next(iter(self.userids or self._uids)) for a non-empty _uids; without the fallback next(iter(self.userids)) *)
+Definition default_uid (fallback : bool) (uids : list uidr) : option uidr :=
+  match filter u_text uids with
+  | u :: _ => Some u
+  | [] => if fallback then hd_error uids else None
+  end.
 
 (* _get_key_flags on a primary key *)
-Definition flags_primary_with (upick : list sigr -> option sigr) (uids : list uidr) (user : option Z) : fres :=
+Definition flags_primary_with (r : rules) (uids : list uidr) (user : option Z) : fres :=
   match user with
   | Some s => match get_uid uids s with
               | None => FCrash CrashUser
-              | Some u => FOk (Z.lor CERTIFY (selfsig_flags_with upick u)) end
+              | Some u => FOk (Z.lor CERTIFY (selfsig_flags_with (r_upick r) u)) end
   | None => match uids with
             | [] => FOk CERTIFY
-            | u :: _ => FOk (Z.lor CERTIFY (selfsig_flags_with upick u)) end
+            | _ :: _ => match default_uid (r_uafallback r) uids with
+                        | Some u => FOk (Z.lor CERTIFY (selfsig_flags_with (r_upick r) u))
+                        | None => FCrash CrashNoUserId end
+            end
   end.
-Definition flags_primary := flags_primary_with newest_cert.
 (* _get_key_flags on a subkey (the user argument is ignored there) *)
-Definition flags_sub_with (pick : list sigr -> option sigr) (sigs : list sigr) : fres :=
-  match pick sigs with Some s => FOk (s_flags s) | None => FCrash CrashNoBinding end.
-Definition flags_sub := flags_sub_with newest.
+Definition flags_sub_with (r : rules) (sigs : list sigr) : fres :=
+  match r_pick r sigs with Some s => FOk (s_flags s) | None => r_nobind r end.
 
+(* what is_public / is_protected / is_unlocked of ONE key object (the receiver or a subkey) depend on:
+   packet class, keymaterial.s2k set, secret material present *)
+Record cattr := { a_public : bool; a_protected : bool; a_unl : bool }.
+Definition is_public (a : cattr) : bool := a_public a.
+Definition is_protected (a : cattr) : bool := if is_public a then false else a_protected a.
+Definition is_unlocked (a : cattr) : bool := if is_public a then true else if negb (is_protected a) then true else a_unl a.
+
+Record subr := { sb_sigs : list sigr; sb_attr : cattr }.
 (* the key object an operation is invoked on *)
 Record pkey := {
   k_present : bool;              (* key._key is not None *)
   k_primary : bool;              (* is_primary; a subkey object can be the receiver too (decrypt delegates to it) *)
-  k_uids : list uidr;            (* key._uids *)
+  k_uids : list uidr;            (* key._uids (for a subkey receiver: what get_uid searches, its parent's _uids) *)
   k_bind : list sigr;            (* its own binding signatures when it is a subkey *)
-  k_subs : list (list sigr);     (* key.subkeys.values(), insertion order: the signatures of each *)
-  k_public : bool; k_protected : bool; k_unl : bool;     (* packet class, keymaterial.s2k set, secret material present *)
+  k_subs : list subr;            (* key.subkeys.values(), insertion order: the signatures and the lock state of each *)
+  k_attr : cattr;                (* the lock state of the receiver *)
   k_enforce : bool }.            (* key._require_usage_flags *)
 
-Definition is_public (k : pkey) : bool := k_public k.
-Definition is_protected (k : pkey) : bool := if is_public k then false else k_protected k.
-Definition is_unlocked (k : pkey) : bool := if is_public k then true else if negb (is_protected k) then true else k_unl k.
+Definition rules_now : rules :=
+  {| r_upick := newest_cert; r_pick := newest; r_nobind := FOk 0; r_usercheck := true; r_uafallback := true; r_onchosen := true |}.
+Definition flags_primary := flags_primary_with rules_now.
+Definition flags_sub := flags_sub_with rules_now.
 
 (* flags of the receiver (component 0) and of its subkeys (components 1..n), in the order usage() visits them *)
-(* upick = the selfsig rule on user ids, pick = the binding-signature rule on subkeys *)
-Definition comp_flags_with (upick pick : list sigr -> option sigr) (k : pkey) (user : option Z) : list fres :=
-  (if k_primary k then flags_primary_with upick (k_uids k) user else flags_sub_with pick (k_bind k)) :: map (flags_sub_with pick) (k_subs k).
-Definition comp_flags := comp_flags_with newest_cert newest.
+Definition comp_flags_with (r : rules) (k : pkey) (user : option Z) : list fres :=
+  (if k_primary k then flags_primary_with r (k_uids k) user else flags_sub_with r (k_bind k))
+  :: map (fun s => flags_sub_with r (sb_sigs s)) (k_subs k).
+Definition comp_flags := comp_flags_with rules_now.
+(* the lock states in the same order; comp_attr k i = that of component i *)
+Definition comp_attrs (k : pkey) : list cattr := k_attr k :: map sb_attr (k_subs k).
+Definition comp_attr (k : pkey) (i : nat) : cattr := nth i (comp_attrs k) (k_attr k).
 
 (* the for ... else of KeyAction.usage.  idx = index of the head of l, last = index of the component visited before it
    (what the loop variable _key still holds when the loop runs out) *)
@@ -102,40 +142,69 @@ Definition op_conds (o : oper) : list (attr * bool) :=
   match o with OEncrypt => [(IsPublic, true)] | _ => [(IsUnlocked, true); (IsPublic, false)] end.
 Definition is_certify (o : oper) : bool := match o with OCertify => true | _ => false end.
 
-Definition attr_val (k : pkey) (a : attr) : bool := match a with IsUnlocked => is_unlocked k | IsPublic => is_public k end.
-(* check_attributes(key) -- on the receiver, not on the chosen component: the first violated condition *)
-Definition check_attributes (k : pkey) (o : oper) : option attr :=
-  option_map fst (find (fun c => negb (Bool.eqb (attr_val k (fst c)) (snd c))) (op_conds o)).
+Definition attr_val (a : cattr) (x : attr) : bool := match x with IsUnlocked => is_unlocked a | IsPublic => is_public a end.
+(* check_attributes(_key) on one key object: the first violated condition *)
+Definition check_attributes (a : cattr) (o : oper) : option attr :=
+  option_map fst (find (fun c => negb (Bool.eqb (attr_val a (fst c)) (snd c))) (op_conds o)).
 
 Inductive used := Chosen (idx : nat) (warned : bool) | Refused | Crashed (c : crash).
-Definition usage_with (upick pick : list sigr -> option sigr) (k : pkey) (o : oper) (user : option Z) : used :=
+Definition usage_with (r : rules) (k : pkey) (o : oper) (user : option Z) : used :=
   if op_flags o =? 0 then Chosen 0 false
-  else match scan (op_flags o) (comp_flags_with upick pick k user) 0 0 with
+  else match scan (op_flags o) (comp_flags_with r k user) 0 0 with
        | Found i => Chosen i false
        | Exhausted last => if k_enforce k then Refused else Chosen last true
        | ScanCrash c => Crashed c
        end.
-Definition usage := usage_with newest_cert newest.
+Definition usage := usage_with rules_now.
 
 Inductive outcome :=
-  | NoKey | Incomplete | NoUsage | BadAttr (a : attr)     (* the four PGPError refusals *)
-  | Crash (c : crash)
-  | Run (idx : nat) (warned : bool).                     (* the undecorated method runs on component idx *)
+  | NoKey | Incomplete | NoUser | NoUsage | BadAttr (a : attr)     (* the five PGPError refusals *)
+  | Crash (c : crash)                                              (* an exception that is not PGPError (none under rules_now) *)
+  | Run (idx : nat) (warned : bool).                               (* the undecorated method runs on component idx *)
+
+(* `user is not None and key.get_uid(user) is None` *)
+Definition user_unknown (k : pkey) (user : option Z) : bool :=
+  match user with
+  | Some s => match get_uid (k_uids k) s with None => true | Some _ => false end
+  | None => false
+  end.
 
 (* KeyAction.__call__ *)
-Definition perform_with (upick pick : list sigr -> option sigr) (k : pkey) (o : oper) (user : option Z) : outcome :=
+Definition perform_with (r : rules) (k : pkey) (o : oper) (user : option Z) : outcome :=
   if negb (k_present k) then NoKey
   else if (length (k_uids k) =? 0)%nat && k_primary k && negb (is_certify o) then Incomplete
-  else match usage_with upick pick k o user with
+  else if r_usercheck r && user_unknown k user then NoUser
+  else match usage_with r k o user with
        | Crashed c => Crash c
        | Refused => NoUsage
-       | Chosen i w => match check_attributes k o with Some a => BadAttr a | None => Run i w end
+       | Chosen i w => match check_attributes (if r_onchosen r then comp_attr k i else k_attr k) o with
+                       | Some a => BadAttr a
+                       | None => Run i w
+                       end
        end.
-Definition perform := perform_with newest_cert newest.
+Definition perform := perform_with rules_now.
+
+(* the earlier rules, each differing from rules_now in what one repair changed *)
+Definition with_pick (r : rules) (p : list sigr -> option sigr) : rules :=
+  {| r_upick := r_upick r; r_pick := p; r_nobind := r_nobind r; r_usercheck := r_usercheck r; r_uafallback := r_uafallback r; r_onchosen := r_onchosen r |}.
+Definition with_upick (r : rules) (p : list sigr -> option sigr) : rules :=
+  {| r_upick := p; r_pick := r_pick r; r_nobind := r_nobind r; r_usercheck := r_usercheck r; r_uafallback := r_uafallback r; r_onchosen := r_onchosen r |}.
 (* before repair 480b116 (F7): the oldest binding signature of a subkey *)
-Definition perform_prefix := perform_with newest_cert oldest.
+Definition perform_prefix := perform_with (with_pick rules_now oldest).
 (* before repair 812bc0f: the newest signature of any type by the key as the self-signature of a user id *)
-Definition perform_old_selfsig := perform_with newest newest.
+Definition perform_old_selfsig := perform_with (with_upick rules_now newest).
+(* before repair a0cb78f: no check of user=, a subkey without binding signature raises *)
+Definition rules_old_crash : rules :=
+  {| r_upick := newest_cert; r_pick := newest; r_nobind := FCrash CrashNoBinding; r_usercheck := false; r_uafallback := true; r_onchosen := true |}.
+Definition perform_old_crash := perform_with rules_old_crash.
+(* before repair 1d6dbd1: the default identity is the first USER ID *)
+Definition rules_old_identity : rules :=
+  {| r_upick := newest_cert; r_pick := newest; r_nobind := FOk 0; r_usercheck := true; r_uafallback := false; r_onchosen := true |}.
+Definition perform_old_identity := perform_with rules_old_identity.
+(* before repair cab6d36: the conditions are checked on the receiver *)
+Definition rules_old_lockcheck : rules :=
+  {| r_upick := newest_cert; r_pick := newest; r_nobind := FOk 0; r_usercheck := true; r_uafallback := true; r_onchosen := false |}.
+Definition perform_old_lockcheck := perform_with rules_old_lockcheck.
 
 (* the top of PGPKey.decrypt: own key id among the recipients -> decrypt here; else the subkeys that are addressed
    (the code takes list(set & set)[0], i.e. one of them); else refuse *)
